@@ -389,3 +389,20 @@ Proof.
   rewrite P5.chk_sub_ok by (change (2 ^ 64) with 18446744073709551616; unfold two32 in H; lia). cbn [obind].
   replace (Z.min (n - 1) 4) with 4 by lia. reflexivity.
 Qed.
+
+(* ------------------------------------------------------------------ process_minidump_with_options: a result or an error *)
+Lemma process_minidump_total p cpu a os module_at mma cfi_walk iv tl si pi :
+  P5.arch_ok a -> input_ok a pi -> cfi_contract a cfi_walk ->
+  exists r, process_minidump p cpu a os module_at mma cfi_walk iv tl si pi = Ret r /\
+    match r with
+    | ProcessErr e => (tl = false /\ e = MissingThreadList) \/ (tl = true /\ si = false /\ e = MissingSystemInfo)
+    | ProcessOk outs req => tl = true /\ si = true /\ Forall2 (thread_post pi) (pi_threads pi) outs /\
+                            (forall i, req = Some i -> (i < length outs)%nat)
+    end.
+Proof.
+  intros Ha Hin Hcfi. unfold process_minidump, info_new.
+  destruct tl; cbn [negb]; [|eexists; split; [reflexivity|left; split; reflexivity]].
+  destruct si; cbn [negb]; [|eexists; split; [reflexivity|right; repeat split; reflexivity]].
+  destruct (process_threads_total p cpu a os module_at mma cfi_walk iv pi Ha Hin Hcfi) as [outs [E [F Hb]]].
+  rewrite E. cbn [obind fst snd]. eexists. split; [reflexivity|]. repeat split; assumption.
+Qed.
